@@ -108,7 +108,17 @@ macro_rules! persp_suite {
                 $M4::perspective_infinite_reverse_lh(fov, asp, n),
                 $M4::perspective_infinite_reverse_rh(fov, asp, n),
             ];
+            // perspective_rh_gl is documented through 2 * near * far: when that product leaves the normal range of the scalar
+            // type the form is not judged (the other six only use near, far and their difference)
+            let nf = 2.0 * (n as f64) * (f as f64);
+            let gl_ok = nf.is_finite() && nf < <$T>::MAX as f64 / 4.0 && nf > <$T>::MIN_POSITIVE as f64 * 4.0;
+            if !gl_ok {
+                t.class("persp:2*near*far outside the normal range (GL form not judged)");
+            }
             for (i, m) in ms.iter().enumerate() {
+                if i == 0 && !gl_ok {
+                    continue;
+                }
                 let spec = &logic::PSPECS[i];
                 let cols = m.to_cols_array();
                 logic::persp_matrix::<$T>(cx!(t, stringify!($M4)), spec, &fr, &cols)?;
